@@ -170,6 +170,8 @@ def string_enum(rng, nvariants=None, *, allow_default=True, allow_disabled=True,
         it.where_clause = True     # bounds written in a where-clause instead of inline
     if rng.random() < 0.1:
         it.attr_delims = rng.choice([[1], [2], [0, 1, 2], [1, 0]])      # #[strum{..}] / #[strum[..]] instead of #[strum(..)]
+    if rng.random() < 0.15:
+        it.trailing_commas = True  # `V(u8,)`, `S { a: u8, }`, `#[strum(serialize = "x",)]`
     if rng.random() < 0.12:
         it.via_macro = True        # the enum comes out of a macro_rules! expansion, attribute values passed in as fragments
     return it
